@@ -214,6 +214,11 @@ def run(ctx: Ctx) -> None:
     cases = []
     for e in getattr(ctx, "fixed_witnesses", []):
         cases.append(e["witness"]); ctx.corpus_cases += 1
+    # include chains of 3 ... 14 files, every file defining a key of its own, the root referring to the deepest one
+    for n in (3, 9, 10, 11, 12, 14):
+        files = {f"c{i}": (f"#include 'c{i + 1}'\n" if i < n else "") + f"k{i} {i};\n" for i in range(1, n + 1)}
+        cases.append({"kind": "src", "text": f"#include 'c1'\nk0 0;\nspan \"1 + $k{n}\";\n", "items": [], "files": files, "transitive": True,
+                      "has_expr": True, "has_incl": True})
     for _ in range(ctx.n(250, 5000)):
         cases.append(gen_source(rng))
     process(ctx, cases)
